@@ -109,7 +109,11 @@ package js
 //@        result == IncrToken || result == DecrToken || result == GtGtGtEqToken || result == LtLtEqToken || result == GtGtEqToken || result == ExpEqToken || result == AndEqToken || result == OrEqToken || result == NullishEqToken ||
 //@        result == EqEqToken || result == NotEqToken || result == LtEqToken || result == GtEqToken || result == AddEqToken || result == SubEqToken || result == MulEqToken || result == DivEqToken || result == ModEqToken || result == BitAndEqToken || result == BitOrEqToken || result == BitXorEqToken
 
+// jsIdAt(a): the identifier scanner's verdict on the bytes at address a (ghost, defined by consumeIdentifierToken's result; the
+// Unicode classes behind it are data of package unicode). Next's clause on '#' is stated relative to it.
+//@ ghost jsIdAt(a)
 //@ func Lexer.consumeIdentifierToken
+//@   ensures[F,ghost] @verdict: result <==> jsIdAt(ptr(l.r.buf) + old(l.r.pos)) == 1
 // ID_Start is Lu Ll Lt Lm Lo Nl and Other_ID_Start (seven classes), ID_Continue adds Mn Mc Nd Pc and Other_ID_Continue
 // (eleven): the class lists are complete in number (which class each entry is belongs to package unicode)
 //@   ensures[F,C06] @id-class-count: old(len(identifierStart) == 7 && len(identifierContinue) == 11)
@@ -141,6 +145,9 @@ package js
 //@   ensures[F,C06,local] @hex: result == HexadecimalToken ==> old(l.r.buf[l.r.pos]) == '0' && (l.r.buf[old(l.r.pos)+1] == 'x' || l.r.buf[old(l.r.pos)+1] == 'X') && isHexC(l.r.buf[old(l.r.pos)+2]) && l.r.pos == hexBody(l.r.buf, old(l.r.pos)+2) + ite(l.r.buf[hexBody(l.r.buf, old(l.r.pos)+2)] == 'n', 1, 0)
 //@   ensures[F,C06,local] @binary: result == BinaryToken ==> old(l.r.buf[l.r.pos]) == '0' && (l.r.buf[old(l.r.pos)+1] == 'b' || l.r.buf[old(l.r.pos)+1] == 'B') && l.r.pos == binBody(l.r.buf, old(l.r.pos)+2) + ite(l.r.buf[binBody(l.r.buf, old(l.r.pos)+2)] == 'n', 1, 0) && (l.r.buf[old(l.r.pos)+2] == '0' || l.r.buf[old(l.r.pos)+2] == '1')
 //@   ensures[F,C06,local] @octal: result == OctalToken ==> old(l.r.buf[l.r.pos]) == '0' && (l.r.buf[old(l.r.pos)+1] == 'o' || l.r.buf[old(l.r.pos)+1] == 'O') && l.r.pos == octBody(l.r.buf, old(l.r.pos)+2) + ite(l.r.buf[octBody(l.r.buf, old(l.r.pos)+2)] == 'n', 1, 0) && '0' <= l.r.buf[old(l.r.pos)+2] && l.r.buf[old(l.r.pos)+2] <= '7'
+// longest match for integers (also those that start with 0): unless it ends in the BigInt suffix, an integer literal is never
+// cut off in front of a fraction or an exponent
+//@   ensures[F,C06,local,perpath] @integer-longest: result == IntegerToken ==> l.r.buf[l.r.pos-1] == 'n' || (l.r.buf[l.r.pos] != '.' && l.r.buf[l.r.pos] != 'e' && l.r.buf[l.r.pos] != 'E')
 //@   ensures[F,C06,local,perpath] @decimal: result == DecimalToken ==> (l.r.buf[jI1(l.r.buf, old(l.r.pos))] == '.' || jHasExp(l.r.buf, old(l.r.pos))) && l.r.pos == ite(jHasExp(l.r.buf, old(l.r.pos)), decBody(l.r.buf, jExpS(l.r.buf, old(l.r.pos))), jI2(l.r.buf, old(l.r.pos)))
 //@   ensures[F,C06,local] @integer: result == IntegerToken && old(l.r.buf[l.r.pos]) != '0' ==> l.r.buf[jI1(l.r.buf, old(l.r.pos))] != '.' && l.r.pos == jI1(l.r.buf, old(l.r.pos)) + ite(l.r.buf[jI1(l.r.buf, old(l.r.pos))] == 'n', 1, 0)
 //@   loop 1 invariant[F] hexBody(l.r.buf, l.r.pos) == hexBody(l.r.buf, old(l.r.pos)+2) && isHexC(l.r.buf[old(l.r.pos)+2]) && l.r.pos > old(l.r.pos)+2
@@ -264,6 +271,9 @@ package js
 //@   ensures[F,C06] @tokentype-range: result0 <= PrivateIdentifierToken || (NumericToken < result0 && result0 <= IntegerToken) || (PunctuatorToken < result0 && result0 <= EllipsisToken) || (OperatorToken < result0 && result0 <= OptChainToken) || (ReservedToken < result0 && result0 <= WithToken) || (IdentifierToken <= result0 && result0 <= TargetToken)
 //@   ensures[F,C15] @err-in-span: l.err != nil ==> result0 == ErrorToken && old(l.r.pos) <= errOff(l.err) && errOff(l.err) <= l.r.pos
 // a character that cannot start any token ('#' not followed by an identifier, '@', DEL, control characters) is reported at exactly that character
+// a '#' begins a private name exactly when the identifier scanner accepts what follows it (any identifier: ASCII, Unicode
+// letters, \u escapes), and is an illegal character otherwise
+//@   ensures[F,C06,perpath] @private-name: old(l.r.buf[l.r.pos]) == '#' ==> (result0 == PrivateIdentifierToken <==> jsIdAt(ptr(l.r.buf) + old(l.r.pos) + 1) == 1)
 //@   ensures[F,C15,perpath] @err-at-char: result0 == ErrorToken && l.err != nil && jsIllegal(old(l.r.buf[l.r.pos])) ==> errOff(l.err) == old(l.r.pos)
 //@   ensures[F,C06] @tokentype-closed: result0 != PunctuatorToken && result0 != OperatorToken && result0 != NumericToken && result0 != RegExpToken
 
